@@ -74,7 +74,9 @@ func buildFieldRoles(u *Universe) {
 				return ok && types.Identical(pt.Elem(), wn)
 			}), "child")
 			set(unique(ws, func(f *types.Var) bool { return typeStr(f.Type()) == "io.Writer" }), "w")
-			set(unique(ws, func(f *types.Var) bool { return strings.HasSuffix(typeStr(f.Type()), "*parquet.Metadata") || strings.HasSuffix(typeStr(f.Type()), "*Metadata") }), "meta")
+			set(unique(ws, func(f *types.Var) bool {
+				return strings.HasSuffix(typeStr(f.Type()), "*parquet.Metadata") || strings.HasSuffix(typeStr(f.Type()), "*Metadata")
+			}), "meta")
 			// the two int fields: the one the page-size option sets is `max`, the other `len`
 			var ints []*types.Var
 			for i := 0; i < ws.NumFields(); i++ {
@@ -192,11 +194,12 @@ func roleField(u *Universe, path, typ, role string) *types.Var {
 var funcRoleMemo = map[string]*ssa.Function{}
 
 // roleFunc: the function of package path that plays the given role.
-//   writerInner  — the constructor NewParquetWriter delegates to (takes the sink and the option list)
-//   readRowGroup — the method of ParquetReader that NewParquetReader calls last and that invokes Field.Read
-//   getFields    — the function whose result the reader keeps as its column map
-//   metaSize     — (runtime) the function ReadMetaData calls that seeks relative to the end of the source
-//   structField  — (generator, package structs) the function that renders one schema element as a Go field
+//
+//	writerInner  — the constructor NewParquetWriter delegates to (takes the sink and the option list)
+//	readRowGroup — the method of ParquetReader that NewParquetReader calls last and that invokes Field.Read
+//	getFields    — the function whose result the reader keeps as its column map
+//	metaSize     — (runtime) the function ReadMetaData calls that seeks relative to the end of the source
+//	structField  — (generator, package structs) the function that renders one schema element as a Go field
 func roleFunc(u *Universe, path, role string) *ssa.Function {
 	key := fmt.Sprintf("%p|%s|%s", u, path, role)
 	if f, ok := funcRoleMemo[key]; ok {
